@@ -451,9 +451,11 @@ class PC(StructureEstimator):
                             pdag.remove_edge(Y, X)
                             break
 
-            # 4) for each X-Z-Y with X->W, Y->W, and Z-W, orient edges to Z->W
+            # 4) for each X-Z-Y (X, Y non-adjacent) with X->W, Y->W, and Z-W, orient edges to Z->W
             for pair in node_pairs:
                 X, Y = pair
+                if pdag.has_edge(X, Y) or pdag.has_edge(Y, X):
+                    continue
                 for Z in (
                     set(pdag.successors(X))
                     & set(pdag.predecessors(X))
